@@ -76,6 +76,9 @@ def sim_worker_side(ctx):
         prog([("u1", [("remote_exec", "c", 1), ("receive", "c")])],
              {1: [("newchannel", "k"), ("setcallback", "k", False), ("sendchan", "channel", "k"), ("drop", "k"), ("receive", "channel")]}),
         prog([("u1", [("remote_exec", "c", 1), ("remote_exec", "d", 2)])], {1: [("receive", "channel")], 2: [("sleep", 100)]}),
+        # a body that is just finishing on the worker's main thread when the connection goes away
+        prog([("u1", [("remote_exec", "c", 1)])], {1: []}),
+        prog([("u1", [("remote_exec", "c", 1), ("remote_exec", "d", 2)])], {1: [], 2: [("send", "channel", 1)]}),
     ]
     jobs = []
     for p in progs:
@@ -85,12 +88,14 @@ def sim_worker_side(ctx):
             for k in range(6 if ctx.quick else 40):
                 o = dict(base)
                 if k % 3 == 2:
-                    o["line_level"] = ["serve", "_thread_receiver", "_finished_receiving", "_terminate_execution", "_no_longer_opened", "_local_close"]
+                    o["line_level"] = ["serve", "_thread_receiver", "_finished_receiving", "_terminate_execution", "_no_longer_opened", "_local_close",
+                                       "integrate_as_primary_thread", "trigger_shutdown", "_try_send_to_primary_thread", "_perform_spawn"]
                 jobs.append((p, ("random", ctx.seed * 131 + n * 7 + k), o))
     searches = [(progs[0], 1, 600 if ctx.quick else 4000, {"post_yields": True, "cut": ("i>w", 0)}),
                 (progs[0], 2, 300 if ctx.quick else 4000, {"post_yields": True, "cut": ("i>w", 0)}),
                 (progs[1], 1, 400 if ctx.quick else 4000, {"post_yields": True, "cut": ("i>w", 0)}),
-                (progs[2], 1, 400 if ctx.quick else 4000, {"post_yields": True, "cut": ("i>w", 200)})]
+                (progs[2], 1, 400 if ctx.quick else 4000, {"post_yields": True, "cut": ("i>w", 200)}),
+                (progs[4], 1, 600 if ctx.quick else 6000, {"post_yields": True, "cut": ("i>w", 200), "line_level": ["integrate_as_primary_thread", "trigger_shutdown"]})]
     res = gc.run_and_judge(ctx, jobs, ["C11.", "GEN.", "C04.blocked"], lambda evs: any(e["ev"] == "down" for e in evs), searches=searches)
     gwrun.close_pool()
     return res
@@ -118,7 +123,8 @@ def run(ctx):
              {"env": "receive", "execmodel": "thread", "topo": "via"}, {"env": "sleep", "execmodel": "thread", "topo": "via"},
              {"env": "busy", "execmodel": "thread", "topo": "socket"}, {"env": "receive", "execmodel": "gevent", "topo": "popen"},
              {"env": "sleep", "execmodel": "gevent", "topo": "popen"}, {"env": "busy", "execmodel": "gevent", "topo": "popen"},
-             {"env": "nondaemon", "execmodel": "thread", "topo": "popen"}, {"env": "atexit_hang", "execmodel": "thread", "topo": "popen"}]
+             {"env": "nondaemon", "execmodel": "thread", "topo": "popen"}, {"env": "atexit_hang", "execmodel": "thread", "topo": "popen"},
+             {"env": "flooded", "execmodel": "thread", "topo": "popen"}, {"env": "flooded", "execmodel": "main_thread_only", "topo": "python"}]
     plans = [(base, "sigkill")]
     second = [dict(s) for s in rng.sample(base[:13], 6)]
     plans.append((second, "close"))
